@@ -324,6 +324,9 @@ theorem inFuncRef_size (S : Sem V) (st st' : St V) (f t n : Tok)
         · cases h
   · cases h
 
+theorem size_setCur (st : St V) (a : ArrC V) : size (setCur st a) = size st := rfl
+theorem size_popArr (st : St V) : size (popArr st) = size st := rfl
+
 theorem inFuncRest_size (S : Sem V) (st st' : St V) (f t n : Tok)
     (h : inFuncRest S st f t n = .ok st') : size st' ≤ size st + 3 := by
   unfold inFuncRest at h
@@ -335,10 +338,12 @@ theorem inFuncRest_size (S : Sem V) (st st' : St V) (f t n : Tok)
     have lp := parseToken_len S t _ _ _ _ hpt
     rw [hpt] at h
     simp only at h
+    have hs1 : size ({ st with opfd := opfd1, opft := opft1 } : St V) ≤ size st + 2 := by
+      unfold size; simp only; omega
     split at h
     · split at h
       · simp only [Outcome.ok.injEq] at h
-        rw [← h]; unfold size; simp only; omega
+        rw [← h]; omega
       · cases hfl : flushToSep S true f opft1 opfd1 st.args with
         | err => rw [hfl] at h; cases h
         | panic => rw [hfl] at h; cases h
@@ -350,7 +355,7 @@ theorem inFuncRest_size (S : Sem V) (st st' : St V) (f t n : Tok)
           cases opfd2 with
           | nil =>
             simp only [Outcome.ok.injEq] at h
-            rw [← h]; unfold size; simp only [List.length_nil] at l1 ⊢; omega
+            rw [← h]; unfold size at hs1 ⊢; simp only [List.length_nil] at l1 ⊢; omega
           | cons v rest =>
             simp only at h
             cases hp : pushArg v args2 with
@@ -358,74 +363,78 @@ theorem inFuncRest_size (S : Sem V) (st st' : St V) (f t n : Tok)
               rw [hp] at h
               simp only [Outcome.ok.injEq] at h
               have := pushArg_len _ _ _ hp
-              rw [← h]; unfold size; simp only [List.length_cons] at l1 ⊢; omega
+              rw [← h]; unfold size at hs1 ⊢; simp only [List.length_cons] at l1 ⊢; omega
             | err => rw [hp] at h; cases h
             | panic => rw [hp] at h; cases h
-    · split at h
-      · cases opfd1 with
-        | nil => cases h
-        | cons v rest =>
-          simp only [Outcome.ok.injEq] at h
-          rw [← h]; unfold size; simp only [List.length_cons] at lp ⊢; omega
-      · split at h
-        · simp only [Outcome.ok.injEq] at h
-          rw [← h]; unfold size; simp only; omega
+    · cases hc : curArr ({ st with opfd := opfd1, opft := opft1 } : St V) with
+      | none =>
+        rw [hc] at h
+        simp only at h
+        have := evalFunc_size S _ st' t n h
+        omega
+      | some a =>
+        rw [hc] at h
+        simp only at h
+        split at h
+        · cases hfd : opfd1 with
+          | nil => rw [hfd] at h; cases h
+          | cons v rest =>
+            rw [hfd] at h
+            simp only [Outcome.ok.injEq] at h
+            rw [← h, size_setCur]; unfold size at hs1 ⊢; subst hfd; simp only [List.length_cons] at hs1 ⊢; omega
         · split at h
-          · cases hp : pushArg (S.mkMatrix st.arr) st.args with
-            | ok a' =>
-              rw [hp] at h
-              simp only [Outcome.ok.injEq] at h
-              have := pushArg_len _ _ _ hp
-              rw [← h]; unfold size; simp only; omega
-            | err => rw [hp] at h; cases h
-            | panic => rw [hp] at h; cases h
-          · have := evalFunc_size S _ st' t n h
-            unfold size at this ⊢; simp only at this; omega
+          · simp only [Outcome.ok.injEq] at h
+            rw [← h, size_setCur]; omega
+          · split at h
+            · cases hp : pushArg (S.mkMatrix a.rows) st.args with
+              | ok a' =>
+                rw [hp] at h
+                simp only [Outcome.ok.injEq] at h
+                have := pushArg_len _ _ _ hp
+                rw [← h, size_popArr]; unfold size at hs1 ⊢; simp only; omega
+              | err => rw [hp] at h; cases h
+              | panic => rw [hp] at h; cases h
+            · have := evalFunc_size S _ st' t n h
+              omega
 
-/-- **one token grows the stacks by at most 5 elements** (a function start out of the function
-stack: nothing from `parseToken`, three pushes; the constant is not tight) -/
+theorem stepTail_size (S : Sem V) (st st' : St V) (t n : Tok) (h : stepTail S st t n = .ok st') :
+    size st' ≤ size st + 3 := by
+  unfold stepTail at h
+  split at h
+  · split at h
+    · simp only [Outcome.ok.injEq] at h; rw [← h]; unfold size; simp only; omega
+    · split at h
+      · split at h
+        · simp only [Outcome.ok.injEq] at h; rw [← h, size_setCur]; omega
+        · simp only [Outcome.ok.injEq] at h; rw [← h]; omega
+      · simp only [Outcome.ok.injEq] at h; rw [← h]; unfold size; simp only [List.length_cons]; omega
+  · split at h
+    · split at h
+      · split at h
+        · split at h
+          · simp only [Outcome.ok.injEq] at h; rw [← h, size_setCur]; omega
+          · simp only [Outcome.ok.injEq] at h; rw [← h, size_popArr]; omega
+        · simp only [Outcome.ok.injEq] at h; rw [← h]; omega
+      · simp only [Outcome.ok.injEq] at h; rw [← h]; omega
+    · rename_i f _ _
+      unfold inFunc at h
+      cases href : inFuncRef S st f t n with
+      | some r =>
+        rw [href] at h
+        simp only at h
+        subst h
+        have := inFuncRef_size S st st' f t n href
+        omega
+      | none =>
+        rw [href] at h
+        simp only at h
+        exact inFuncRest_size S st st' f t n h
+
+/-- **one token grows the stacks by at most 5 elements** (at most two from `parseToken` on the
+outer stacks, at most three afterwards; the constant is not tight) -/
 theorem step_size (S : Sem V) (st st' : St V) (t n : Tok) (h : step S st t n = .ok st') :
     size st' ≤ size st + 5 := by
   unfold step at h
-  -- the state after the optional `parseToken` on the outer stacks
-  have key : ∀ st1 : St V, size st1 ≤ size st + 2 →
-      ((if isFuncStart t = true then
-          if (t.val == "ARRAY") = true then Outcome.ok { st1 with inArray := true, arr := [], arrDepth := st1.opf.length }
-          else if (t.val == "ARRAYROW") = true then Outcome.ok { st1 with inArrayRow := true, arrRow := [], arrDepth := st1.opf.length }
-          else Outcome.ok { st1 with opf := t :: st1.opf, args := [] :: st1.args, opft := t :: st1.opft }
-        else match st1.opf with
-          | [] =>
-            if isFuncStop t = true then
-              if st1.inArrayRow = true then Outcome.ok { st1 with inArrayRow := false } else Outcome.ok { st1 with inArray := false }
-            else Outcome.ok st1
-          | f :: _ => inFunc S st1 f t n) = Outcome.ok st') → size st' ≤ size st + 5 := by
-    intro st1 hs1 h2
-    split at h2
-    · split at h2
-      · simp only [Outcome.ok.injEq] at h2; rw [← h2]; unfold size at hs1 ⊢; simp only; omega
-      · split at h2
-        · simp only [Outcome.ok.injEq] at h2; rw [← h2]; unfold size at hs1 ⊢; simp only; omega
-        · simp only [Outcome.ok.injEq] at h2; rw [← h2]; unfold size at hs1 ⊢; simp only [List.length_cons]; omega
-    · split at h2
-      · split at h2
-        · split at h2
-          · simp only [Outcome.ok.injEq] at h2; rw [← h2]; unfold size at hs1 ⊢; simp only; omega
-          · simp only [Outcome.ok.injEq] at h2; rw [← h2]; unfold size at hs1 ⊢; simp only; omega
-        · simp only [Outcome.ok.injEq] at h2; rw [← h2]; omega
-      · rename_i f _ _
-        unfold inFunc at h2
-        cases href : inFuncRef S st1 f t n with
-        | some r =>
-          rw [href] at h2
-          simp only at h2
-          subst h2
-          have := inFuncRef_size S st1 st' f t n href
-          omega
-        | none =>
-          rw [href] at h2
-          simp only at h2
-          have := inFuncRest_size S st1 st' f t n h2
-          omega
   by_cases hopf : st.opf.isEmpty = true
   · simp only [hopf, if_true] at h
     cases hpt : parseToken S t st.opd st.opt with
@@ -436,9 +445,11 @@ theorem step_size (S : Sem V) (st st' : St V) (t n : Tok) (h : step S st t n = .
       have lp := parseToken_len S t _ _ _ _ hpt
       rw [hpt] at h
       simp only at h
-      exact key { st with opd := opd1, opt := opt1 } (by unfold size; simp only; omega) h
+      have := stepTail_size S _ st' t n h
+      unfold size at this ⊢; simp only at this; omega
   · simp only [hopf, Bool.false_eq_true, if_false] at h
-    exact key st (by omega) h
+    have := stepTail_size S st st' t n h
+    omega
 
 /-- the machine state after a prefix of the token list (the loop of `evalInfixExp` cut short) -/
 def runSt (S : Sem V) : St V → List Tok → Outcome (St V)
